@@ -1,6 +1,8 @@
 import OrbitModel.Proofs.PeersDiff
 import OrbitModel.Proofs.Uvarint
 import OrbitModel.Proofs.GenEqFrame
+import OrbitModel.Proofs.Connect
+import OrbitModel.Proofs.GenEqConnect
 /-!
 # C20 — transport adapters deliver each payload once, intact, attributed to its sender
 -/
@@ -68,5 +70,19 @@ theorem accepted_length_within_limit (len64 : BitVec 64) (n : Nat) (h : frameGua
 theorem tied_to_go_text (len64 : BitVec 64) :
     Gen.delimitedReadMaxSize = 4 * 1024 * 1024 ∧ Gen.genFrameRefused len64 = (frameGuard len64 == .refused) :=
   ⟨gen_maxFrame, gen_frameRefused len64⟩
+
+/-- however many stores of one instance connect to one peer, and in whatever order the mutex of the
+pairwise channel serialises them, there is exactly one subscription to the pairwise topic — one
+monitor, so every payload of that peer is delivered once -/
+theorem each_peer_is_subscribed_once (n : Nat) (hn : 0 < n) :
+    (Connect.runLocked n {}).subscriptions = 1 := Connect.runLocked_subscribed n hn
+
+/-- `Connect` in the Go text of this run holds the mutex from before the `Subscribe` to after it -/
+theorem connect_order_tied_to_go_text : Gen.connectOrder = Order.connect := gen_connect_order
+
+/-- were the lock released around `Subscribe`, two overlapping calls would both subscribe -/
+theorem a_lock_released_around_subscribe_would_deliver_twice :
+    (Connect.runNarrow { callers := [(.check, false), (.check, false)] } [0, 1, 0, 1, 0, 1]).st.subscriptions = 2 :=
+  Connect.narrowed_lock_subscribes_twice
 
 end Orbit.C20
